@@ -270,6 +270,18 @@ def _cannot_move(part):
                                {"kind": "cannot", "steps": steps, "rate": rate, "accel": accel,
                                 "accum": accum})
             part.count("cannot_move_cases")
+        # the deprecated duration-only wrapper reports the same: duration 0
+        _calc, ebb_motion = _lib()
+        try:
+            got = ebb_motion.moveTimeLM(rate, steps, accel)      # (rate, steps, accel)
+        except Exception as exc:                # pylint: disable=broad-except
+            got = repr(exc)
+        if got != 0:
+            part.violation(f"cannot_move_time:{steps},{rate},{accel}",
+                           f"moveTimeLM(rate={rate}, steps={steps}, accel={accel}) = {got!r}; a "
+                           f"request that cannot move must report duration 0",
+                           {"kind": "cannot_time", "steps": steps, "rate": rate, "accel": accel})
+        part.count("cannot_move_cases")
 
 
 def run(ctx):
@@ -321,9 +333,17 @@ def run(ctx):
 
 
 def replay(case):
-    if case.get("kind") == "calc_history":
+    if case.get("kind") in ("calc_history", "calc_fresh"):
         from .. import calcseq             # pylint: disable=import-outside-toplevel
         return calcseq.replay(case)
+    if case["kind"] == "cannot_time":
+        _calc, ebb_motion = _lib()
+        try:
+            got = ebb_motion.moveTimeLM(case["rate"], case["steps"], case["accel"])
+        except Exception as exc:                # pylint: disable=broad-except
+            got = repr(exc)
+        return [] if got == 0 else [f"moveTimeLM(rate, steps, accel) with {(case['rate'], case['steps'], case['accel'])} = "
+                                    f"{got!r}; a request that cannot move must report duration 0"]
     steps, rate, accel, accum = case["steps"], case["rate"], case["accel"], case["accum"]
     if case["kind"] == "cannot":
         ebb_calc, _m = _lib()
